@@ -7,8 +7,5 @@ pub mod elf_c19;
 pub mod elf_ids;
 pub mod elf_syms;
 pub mod perfdata;
-<<<<<<< HEAD
 pub mod objpres;
-=======
 pub mod perfdata_bid;
->>>>>>> agent/C19i
